@@ -160,13 +160,27 @@ def suite_result(name, tier):
     tmp = cpath + f".{os.getpid()}"
     pickle.dump(res, open(tmp, "wb"))
     os.replace(tmp, cpath)
-    # keep the cache small: drop entries older than 2 days
-    now = time.time()
+    # keep the cache small: one entry per (suite, tier, seed) - older digests of the same key go -
+    # and at most ~1.5 GB in total (oldest first)
+    prefix = f"{name}-{tier}-{seed()}-"
+    entries = []
     for f in os.listdir(cdir):
         p = os.path.join(cdir, f)
-        if now - os.path.getmtime(p) > 2 * 86400:
+        try:
+            if f.startswith(prefix) and p != cpath and f.endswith(".pkl"):
+                os.remove(p)
+            else:
+                entries.append((os.path.getmtime(p), os.path.getsize(p), p))
+        except OSError:
+            pass
+    total = sum(e[1] for e in entries)
+    for _, size, p in sorted(entries):
+        if total <= 1_500_000_000:
+            break
+        if p != cpath:
             try:
                 os.remove(p)
+                total -= size
             except OSError:
                 pass
     return res
@@ -277,7 +291,7 @@ def run_check(pid, tier):
                             known_hits[l_["id"]] = known_hits.get(l_["id"], 0) + 1
                     else:
                         oracle_fail_new.append({"request": c["req"], "kind": c["kind"], "impl": i[:300],
-                                                "model": m[:300], "why": why, "class": klass,
+                                                "model": m[:300], "why": why, "class": klass, "suite": sname,
                                                 "readable": props.show_case(c)[:600]})
     else:
         obligations_broken.append(("driver", "the Lean driver could not be built; no correspondence was run"))
@@ -311,6 +325,7 @@ def run_check(pid, tier):
                                   "readable": first.get("readable", ""),
                                   "why": first["why"], "impl": first["impl"], "model": first.get("model", ""),
                                   "kind": first["kind"], "others": len(oracle_fail_new) - 1,
+                                  "suite": first.get("suite"), "tier": tier, "seed": seed(),
                                   "broken_obligations": [o[0] for o in obligations_broken],
                                   "correspondence_disagreements": len(disagreements)})
         lines.append(f"VIOLATION property={pid} replay={path}")
@@ -378,15 +393,37 @@ def setup():
 
 
 def replay(path):
+    """Judge the stored failing input again on the current tree.  The input is looked up in its
+    suite (same tier and seed, so the same case list), the suite runs it through the real code and
+    the model, and the property's oracle gives the verdict; requests the older replay files carry
+    without a suite name go through props.replay_request."""
     import props
     obj = json.load(open(path if os.path.isabs(path) else os.path.join(VERIF, path)))
     print(json.dumps({k: (v if not isinstance(v, str) else v[:400]) for k, v in obj.items()}, indent=1))
-    if obj.get("type") == "failing-input":
-        P = props.PROPS[obj["property"]]
-        verdict = props.replay_request(obj["property"], obj["input"])
-        print("replay verdict on the current tree:", verdict or "property holds on this input")
-        return 1 if verdict else 0
-    return 0
+    if obj.get("type") != "failing-input":
+        return 0
+    pid = obj["property"]
+    P = props.PROPS[pid]
+    verdict = None
+    spec = next((s for s in P["suites"] if s["name"] == obj.get("suite")), None)
+    if spec is not None and spec.get("oracle") and obj.get("kind") != "fixed-finding-witness":
+        os.environ["VERIF_SEED"] = str(obj.get("seed", 0))
+        with Lock():
+            run_gen()
+            build(P["lean"])
+        res = suite_result(spec["name"], obj.get("tier", "quick"))
+        hit = [k for k, c_ in enumerate(res["cases"]) if c_["req"] == obj["input"]]
+        if not hit:
+            print("the stored input is not among the suite's cases for this seed and tier any more")
+            return 2
+        k = hit[0]
+        verdict = spec["oracle"](res["cases"][k], res["impl"][k])
+        if res["model"][k] != res["impl"][k]:
+            print("model and implementation disagree on this input:", res["model"][k][:120], "/", res["impl"][k][:120])
+    else:
+        verdict = props.replay_request(pid, obj["input"])
+    print("replay verdict on the current tree:", verdict or "property holds on this input")
+    return 1 if verdict else 0
 
 
 def main(argv):
